@@ -343,11 +343,12 @@ Proof.
   pose proof (spec_last_none since (kof r) l E r Hin eq_refl). lia.
 Qed.
 
-(* What holds with no further hypothesis: the (db,key) of every record at or after
+(* What holds of an ARBITRARY decodable log: the (db,key) of every record at or after
    [since] is represented in the answer by the line of the LAST record carrying that
-   (db id, key id) pair.  The pair does not include the operation: a create-db record
-   is filed under key id 1 and a snapshot record under key id 2, so that last record
-   may be one of those (third and fourth case) and then the key's update is NOT sent. *)
+   (db id, key id) pair.  The pair does not include the operation, so if a create-db or a
+   snapshot record shares the pair (third and fourth case) the key's update is not sent.
+   The writer now files those records under reserved key ids ([marker_create],
+   [marker_snapshot]), which excludes this: see [incr_sync_covers_fixed]. *)
 Theorem incr_sync_covers_general x since :
   sorted_times (cn_log x) = true -> recs_decodable x ->
   exists ls, incr_sync_lines x since = Some ls /\
@@ -390,8 +391,8 @@ Proof.
 Qed.
 
 (* Goal 1 as asked, under the hypothesis that no create-db / snapshot record at or after
-   [since] shares the record's (db id, key id) pair (see [covers_refuted] below for why
-   this is needed). *)
+   [since] shares the record's (db id, key id) pair.  [incr_sync_covers_fixed] discharges
+   this hypothesis for logs produced by the (repaired) writer. *)
 Theorem incr_sync_covers x since :
   sorted_times (cn_log x) = true -> recs_decodable x ->
   exists ls, incr_sync_lines x since = Some ls /\
@@ -568,7 +569,7 @@ Lemma snapshot_fold_none id : forall names x0,
                    match r0 with
                    | None => (x0, None)
                    | Some _ => match db_id_of (cn_node x0) nm with
-                               | Some d => (log_append x0 (mkRec id 2 d 3), Some id)
+                               | Some d => (log_append x0 (mkRec id marker_snapshot d 3), Some id)
                                | None => (x0, None)
                                end
                    end) names (x0, None)) = None.
@@ -581,7 +582,7 @@ Lemma snapshot_fold_keeps id : forall names x0 x',
                match r0 with
                | None => (x0, None)
                | Some _ => match db_id_of (cn_node x0) nm with
-                           | Some d => (log_append x0 (mkRec id 2 d 3), Some id)
+                           | Some d => (log_append x0 (mkRec id marker_snapshot d 3), Some id)
                            | None => (x0, None)
                            end
                end) names (x0, Some id) = (x', Some id) ->
@@ -718,14 +719,14 @@ Definition ex : cnode :=
      "set k0 a"; "set k1 b"; "set k2 c"; "remove k1"; "set k0 a2"; "snapshot false"; "set k3 d"].
 
 Example ex_log :
-  cn_log ex = [mkRec 104 1 1 2;   (* create-db d1 : filed under key id 1 *)
-               mkRec 107 0 1 0;   (* set k0 *)
-               mkRec 109 1 1 0;   (* set k1 *)
-               mkRec 111 2 1 0;   (* set k2 *)
-               mkRec 112 1 1 1;   (* remove k1 *)
-               mkRec 114 0 1 0;   (* set k0 *)
-               mkRec 115 2 1 3;   (* snapshot d1 : filed under key id 2 *)
-               mkRec 117 3 1 0]   (* set k3 *)
+  cn_log ex = [mkRec 104 marker_create 1 2;     (* create-db d1 : reserved key id *)
+               mkRec 107 0 1 0;                 (* set k0 *)
+               mkRec 109 1 1 0;                 (* set k1 *)
+               mkRec 111 2 1 0;                 (* set k2 *)
+               mkRec 112 1 1 1;                 (* remove k1 *)
+               mkRec 114 0 1 0;                 (* set k0 *)
+               mkRec 115 marker_snapshot 1 3;   (* snapshot d1 : reserved key id *)
+               mkRec 117 3 1 0]                 (* set k3 *)
   /\ cn_keymap ex = [("k0", 0); ("k1", 1); ("k2", 2); ("k3", 3)]
   /\ n_idmap (cn_node ex) = [(0, "$admin"); (1, "d1")].
 Proof. vm_compute. repeat split. Qed.
@@ -739,25 +740,23 @@ Qed.
 (* the joiner was last in step at 110: everything from "set k2 c" on happened while it was away *)
 Example ex_lines :
   incr_sync_lines ex 110 =
-  Some ["replicate-remove d1 k1"; "replicate d1 k0 a2"; "replicate-snapshot d1"; "replicate d1 k3 d"].
+  Some ["replicate d1 k2 c"; "replicate-remove d1 k1"; "replicate d1 k0 a2";
+        "replicate-snapshot d1"; "replicate d1 k3 d"].
 Proof. vm_compute. reflexivity. Qed.
 
-(* Goal 1 is FALSE without the no-collision hypothesis: "set k2 c" (time 111 >= 110) is
-   an update of key id 2 of database id 1; the later snapshot record of database 1 is
-   filed under the same (1, 2) pair and replaces it in the query result, so the joiner
-   gets no line at all for k2 although its value changed. *)
-Example covers_refuted :
+(* Before the repair of the writer (create-db filed under key id 1, snapshot under key id 2)
+   the snapshot record (115) replaced "set k2 c" (111, key id 2) in the query result and
+   the joiner got no line for k2.  With the reserved key ids the update is sent. *)
+Example covers_fixed_example :
   let r := mkRec 111 2 1 0 in
-  sorted_times (cn_log ex) = true /\ recs_decodable ex /\
   In r (cn_log ex) /\ 110 <= r_time r /\ r_op r <= 1 /\
   name_of_id (n_idmap (cn_node ex)) (r_db r) = Some "d1" /\
   key_of_id (cn_keymap ex) (r_key r) = Some "k2" /\
   (exists d, get_db (cn_node ex) "d1" = Some d /\ fst (get_key_value_new d "k2") = "c") /\
-  exists ls, incr_sync_lines ex 110 = Some ls /\
-    ~ In "replicate d1 k2 c" ls /\ ~ In "replicate-remove d1 k2" ls /\
-    spec_last (cn_log ex) 110 (r_db r, r_key r) = Some (mkRec 115 2 1 3).
+  spec_last (cn_log ex) 110 (r_db r, r_key r) = Some r /\
+  exists ls, incr_sync_lines ex 110 = Some ls /\ In "replicate d1 k2 c" ls.
 Proof.
-  cbv zeta. split; [apply ex_decodable|]. split; [apply ex_decodable|].
+  cbv zeta.
   split; [rewrite (proj1 ex_log); cbn; tauto|].
   split; [cbn; lia|]. split; [cbn; lia|].
   split; [vm_compute; reflexivity|]. split; [vm_compute; reflexivity|].
@@ -767,20 +766,18 @@ Proof.
     assert (H : option_map (fun d => fst (get_key_value_new d "k2")) (get_db (cn_node ex) "d1") = Some "c")
       by (vm_compute; reflexivity).
     rewrite E in H. cbn [option_map] in H. now injection H. }
-  eexists. split; [apply ex_lines|].
-  split; [|split; [|vm_compute; reflexivity]].
-  - intros H. cbn [In] in H. repeat (destruct H as [H|H]; [discriminate H|]). exact H.
-  - intros H. cbn [In] in H. repeat (destruct H as [H|H]; [discriminate H|]). exact H.
+  split; [vm_compute; reflexivity|].
+  eexists. split; [apply ex_lines|]. now left.
 Qed.
 
-(* the same collision loses the create-db line: "remove k1" (key id 1) replaces the
-   create-db record of d1, filed under key id 1; a joiner that was away since 104 is sent
-   writes into d1 but no "create-db d1 tok" *)
-Example create_db_line_lost :
-  In (mkRec 104 1 1 2) (cn_log ex) /\
+(* likewise "remove k1" (key id 1) no longer displaces the create-db record of d1: a joiner
+   that was away since 104 is sent "create-db d1 tok" first *)
+Example create_db_line_kept_example :
+  In (mkRec 104 marker_create 1 2) (cn_log ex) /\
   create_db_line (cn_node ex) "d1" = "create-db d1 tok" /\
   incr_sync_lines ex 104 =
-  Some ["replicate-remove d1 k1"; "replicate d1 k0 a2"; "replicate-snapshot d1"; "replicate d1 k3 d"].
+  Some ["create-db d1 tok"; "replicate d1 k2 c"; "replicate-remove d1 k1"; "replicate d1 k0 a2";
+        "replicate-snapshot d1"; "replicate d1 k3 d"].
 Proof. split; [rewrite (proj1 ex_log); now left|]. split; vm_compute; reflexivity. Qed.
 
 (* goal 5 at work: one more write keeps the invariant *)
@@ -979,7 +976,7 @@ Definition ex3 : cnode :=
     ["auth user pwd"; "create-db d1 tok"; "use-db d1 tok"; "set k0 a"; "set k1 b"].
 
 Example only_touched_refuted :
-  cn_log ex3 = [mkRec 104 1 1 2; mkRec 107 0 1 0; mkRec 109 1 1 0] /\
+  cn_log ex3 = [mkRec 104 marker_create 1 2; mkRec 107 0 1 0; mkRec 109 1 1 0] /\
   decodable ex3 /\
   incr_sync_lines ex3 108 = Some ["replicate d1 k0 a"; "replicate d1 k1 b"] /\
   spec_last (cn_log ex3) 108 (1, 0) = None.
@@ -1184,14 +1181,15 @@ Proof.
 Qed.
 
 (* ------------------------------------------------------------------ *)
-(* 12. which keys are exposed to the collision of goal 1                *)
+(* 12. the reserved key ids of create-db / snapshot records             *)
 
-(* the writer files create-db records under key id 1 and snapshot records under key id 2,
-   and nothing else with an operation code above 1 *)
+(* the writer files create-db records under [marker_create] and snapshot records under
+   [marker_snapshot], and nothing else with an operation code above 1 *)
 Definition meta_keys (f : ofile) : Prop :=
-  forall r, In r f -> 2 <= r_op r -> r_key r = 1 \/ r_key r = 2.
+  forall r, In r f -> 2 <= r_op r -> r_key r = marker_create \/ r_key r = marker_snapshot.
 
-Lemma meta_keys_snoc f r : meta_keys f -> (2 <= r_op r -> r_key r = 1 \/ r_key r = 2) ->
+Lemma meta_keys_snoc f r : meta_keys f ->
+  (2 <= r_op r -> r_key r = marker_create \/ r_key r = marker_snapshot) ->
   meta_keys (f ++ [r]).
 Proof.
   intros H Hr r0 Hin. apply in_app_or in Hin. destruct Hin as [Hin|[<-|[]]]; [now apply H|exact Hr].
@@ -1204,7 +1202,7 @@ Lemma snapshot_fold_meta id : forall names x0 o x' o',
                match r0 with
                | None => (x0, None)
                | Some _ => match db_id_of (cn_node x0) nm with
-                           | Some d => (log_append x0 (mkRec id 2 d 3), Some id)
+                           | Some d => (log_append x0 (mkRec id marker_snapshot d 3), Some id)
                            | None => (x0, None)
                            end
                end) names (x0, o) = (x', o') ->
@@ -1244,13 +1242,12 @@ Proof.
   - eapply snapshot_fold_meta; eauto.
 Qed.
 
-(* so only the second and the third key name ever used on the node (ids 1 and 2) can lose
-   an update; every other key is covered unconditionally *)
+(* every key whose id is below the reserved ids is covered unconditionally *)
 Theorem incr_sync_covers_safe_keys x since :
   sorted_times (cn_log x) = true -> recs_decodable x -> meta_keys (cn_log x) ->
   exists ls, incr_sync_lines x since = Some ls /\
     forall r dbn k, In r (cn_log x) -> since <= r_time r -> r_op r <= 1 ->
-      r_key r <> 1 -> r_key r <> 2 ->
+      r_key r < marker_snapshot ->
       name_of_id (n_idmap (cn_node x)) (r_db r) = Some dbn ->
       key_of_id (cn_keymap x) (r_key r) = Some k ->
       exists r', spec_last (cn_log x) since (r_db r, r_key r) = Some r' /\
@@ -1260,11 +1257,51 @@ Theorem incr_sync_covers_safe_keys x since :
 Proof.
   intros Hs Hd Hm. destruct (incr_sync_covers x since Hs Hd) as (ls & Hls & Hcov).
   exists ls. split; [exact Hls|].
-  intros r dbn k Hin Hge Hop Hk1 Hk2 Hname Hkey.
+  intros r dbn k Hin Hge Hop Hlt Hname Hkey.
   apply (Hcov r dbn k Hin Hge Hop Hname Hkey).
   intros r2 Hin2 _ _ Hkey2.
   destruct (N.le_gt_cases (r_op r2) 1) as [Hle|Hgt]; [exact Hle|].
-  destruct (Hm r2 Hin2 ltac:(lia)); congruence.
+  exfalso.
+  destruct (Hm r2 Hin2 ltac:(lia)) as [E|E]; rewrite E in Hkey2;
+    unfold marker_create, marker_snapshot in *; lia.
+Qed.
+
+(* Goal 1 as originally stated, for the repaired writer: under the writer's invariants
+   ([decodable], [meta_keys]) and as long as keys_map has not reached the reserved ids,
+   no panic, and every key written or removed at or after [since] has its line, chosen by
+   the last record of the key at or after [since].  No per-record hypothesis. *)
+Theorem incr_sync_covers_fixed x since :
+  decodable x -> meta_keys (cn_log x) ->
+  N.of_nat (length (cn_keymap x)) < marker_snapshot ->
+  exists ls, incr_sync_lines x since = Some ls /\
+    forall r, In r (cn_log x) -> since <= r_time r -> r_op r <= 1 ->
+      exists dbn k r',
+        name_of_id (n_idmap (cn_node x)) (r_db r) = Some dbn /\
+        key_of_id (cn_keymap x) (r_key r) = Some k /\
+        spec_last (cn_log x) since (r_db r, r_key r) = Some r' /\
+        ((r_op r' = 0 /\ exists d, get_db (cn_node x) dbn = Some d /\
+             In ("replicate " +++ dbn +++ " " +++ k +++ " " +++ fst (get_key_value_new d k)) ls)
+         \/ (r_op r' = 1 /\ In ("replicate-remove " +++ dbn +++ " " +++ k) ls)).
+Proof.
+  intros (Hs & Hd & Hkm & _) Hm Hlen.
+  destruct (incr_sync_covers_safe_keys x since Hs Hd Hm) as (ls & Hls & Hcov).
+  exists ls. split; [exact Hls|].
+  intros r Hin Hge Hop.
+  destruct (Hd r Hin) as [(dbn & Hname & _) Hk]. destruct (Hk Hop) as [k Hkey].
+  assert (Hlt : r_key r < marker_snapshot).
+  { pose proof (keymap_ok_ids _ Hkm _ _ (key_of_id_in _ _ _ Hkey)). lia. }
+  destruct (Hcov r dbn k Hin Hge Hop Hlt Hname Hkey) as (r' & Hr' & Hcases).
+  exists dbn, k, r'. repeat split; assumption.
+Qed.
+
+(* the length bound is an invariant as long as fewer than 2^64 - 2 distinct key names
+   are ever used: key_id adds at most one entry *)
+Lemma key_id_length x key x1 kid : key_id x key = (x1, kid) ->
+  (length (cn_keymap x1) <= S (length (cn_keymap x)))%nat.
+Proof.
+  unfold key_id. destruct (assoc_get String.eqb key (cn_keymap x)); intros [= <- _].
+  - lia.
+  - cbn [cn_keymap]. rewrite app_length. cbn [length]. lia.
 Qed.
 
 Lemma sync_lines_incr x since : since <> 0 -> sync_lines x since = incr_sync_lines x since.
@@ -1273,5 +1310,23 @@ Proof. intros H. unfold sync_lines. destruct (N.eqb_spec since 0); congruence. Q
 Example ex_meta_keys : meta_keys (cn_log ex).
 Proof.
   intros r Hr. rewrite (proj1 ex_log) in Hr. cbn [In] in Hr.
-  repeat (destruct Hr as [<-|Hr]; [cbn [r_op r_key]; lia|]). destruct Hr.
+  repeat (destruct Hr as [<-|Hr];
+          [cbn [r_op r_key]; intros Hop; first [lia | now left | now right]|]).
+  destruct Hr.
+Qed.
+
+(* the hypotheses of [incr_sync_covers_fixed] hold of the concrete run, so it applies *)
+Example ex_covers_fixed :
+  exists ls, incr_sync_lines ex 110 = Some ls /\
+    forall r, In r (cn_log ex) -> 110 <= r_time r -> r_op r <= 1 ->
+      exists dbn k r',
+        name_of_id (n_idmap (cn_node ex)) (r_db r) = Some dbn /\
+        key_of_id (cn_keymap ex) (r_key r) = Some k /\
+        spec_last (cn_log ex) 110 (r_db r, r_key r) = Some r' /\
+        ((r_op r' = 0 /\ exists d, get_db (cn_node ex) dbn = Some d /\
+             In ("replicate " +++ dbn +++ " " +++ k +++ " " +++ fst (get_key_value_new d k)) ls)
+         \/ (r_op r' = 1 /\ In ("replicate-remove " +++ dbn +++ " " +++ k) ls)).
+Proof.
+  apply (incr_sync_covers_fixed ex 110 ex_decodable ex_meta_keys).
+  vm_compute. reflexivity.
 Qed.
